@@ -417,6 +417,9 @@ def rule_l(ctx):
     rule_send_frame_sends(ctx, 'C01.i')
     from .msgtransports import rule_feeders_started
     rule_feeders_started(ctx, 'C01.i')
+    # the byte-stream transport writes prefix and payload of the frame it is given, once, in order (shared C02.e)
+    from .c02 import rule_tcp_writer
+    rule_tcp_writer(ctx)
 
 
 def rule_g(ctx):
@@ -437,4 +440,4 @@ def rule_d(ctx):
     c03f(ctx)
 
 
-RULES = [('C01.a', rule_a), ('C01.b', rule_b), ('C01.c', rule_c), ('C01.d', rule_e), ('C01.e', rule_f), ('C01.f', rule_g), ('C06.e', rule_h), ('C06.a', rule_i), ('C01.g', rule_j), ('C01.h', rule_k), ('C01.i', rule_l), ('C05.a+C05.f+C03.b+C03.c+C03.f', rule_d)]
+RULES = [('C01.a', rule_a), ('C01.b', rule_b), ('C01.c', rule_c), ('C01.d', rule_e), ('C01.e', rule_f), ('C01.f', rule_g), ('C06.e', rule_h), ('C06.a', rule_i), ('C01.g', rule_j), ('C01.h', rule_k), ('C01.i+C02.e', rule_l), ('C05.a+C05.f+C03.b+C03.c+C03.f', rule_d)]
